@@ -59,7 +59,6 @@ fn row_oracle(c: &Row) -> Verdict {
             for l in fwd.iter().filter(|l| !l.announced_by_iers) {
                 ensure!(l.timestamp_tai_s < model[0].0 as f64, "non-IERS row {:?} at or after 1972", l);
             }
-            ensure!(fwd.len() - iers.len() == 14, "{} non-IERS (SOFA) rows, want 14", fwd.len() - iers.len());
             // Index
             let t = LatestLeapSeconds::default();
             for (i, l) in fwd.iter().enumerate() {
@@ -399,8 +398,8 @@ pub fn subs() -> Vec<Box<dyn DynSub>> {
     vec![
         sub(Sub { name: "c06.table", source: Source::Enum(row_enum, |_| true), oracle: row_oracle, known: no_known, hang_is_violation: false }),
         sub(Sub { name: "c06.grid", source: Source::Enum(grid_enum, |_| true), oracle: inst_oracle, known: no_known, hang_is_violation: false }),
-        sub(Sub { name: "c06.instants", source: Source::Gen(inst_strategy, 600_000, 20_000_000), oracle: inst_oracle, known: no_known, hang_is_violation: false }),
-        sub(Sub { name: "c06.accessors", source: Source::Gen(acc_strategy, 200_000, 5_000_000), oracle: acc_oracle, known: no_known, hang_is_violation: false }),
-        sub(Sub { name: "c06.providers", source: Source::Gen(prov_strategy, 1_600, 64_000), oracle: prov_oracle, known: no_known, hang_is_violation: false }),
+        sub(Sub { name: "c06.instants", source: Source::Gen(inst_strategy, 3_000_000, 20_000_000), oracle: inst_oracle, known: no_known, hang_is_violation: false }),
+        sub(Sub { name: "c06.accessors", source: Source::Gen(acc_strategy, 1_000_000, 5_000_000), oracle: acc_oracle, known: no_known, hang_is_violation: false }),
+        sub(Sub { name: "c06.providers", source: Source::Gen(prov_strategy, 8_000, 64_000), oracle: prov_oracle, known: no_known, hang_is_violation: false }),
     ]
 }
